@@ -73,6 +73,9 @@ func suiteBlockProof(c *Ctx) {
 			if r.Intn(15) == 0 {
 				ws[k] = 0
 			}
+			if it%16 == 15 && ws[k] > 0 {
+				ws[k] += (uint64(1) << 63) / uint64(n) // the committee's total weight lies between 2^63 and 2^64
+			}
 			W += ws[k]
 		}
 		var members []interfaces.CommitteeMember
